@@ -137,12 +137,17 @@ def deUint : D BigUint := fun bs =>
     andThen (deListN deU64 len bs) fun v bs => .ok (.large v, bs)
   else .error .bad
 
+/-- `den == 0.into()`: value comparison, whatever the representation -/
+def isZeroU : BigUint → Bool
+  | .small n => n == 0
+  | .large v => v.all (· == 0)
+
 def serRat (q : BigRat) : Bytes := [if q.neg then 1 else 2] ++ serUint q.num ++ serUint q.den
 def deRat : D BigRat := fun bs =>
   andThen (deU8 bs) fun s bs =>
   if s ≠ 1 ∧ s ≠ 2 then .error .bad else
   andThen (deUint bs) fun n bs =>
-  andThen (deUint bs) fun d bs => .ok (⟨s = 1, n, d⟩, bs)
+  andThen (deUint bs) fun d bs => if isZeroU d then .error .bad else .ok (⟨s = 1, n, d⟩, bs)
 
 inductive Real where
   | simple (q : BigRat) | pi (q : BigRat)
